@@ -272,3 +272,47 @@ def garble_scenarios(cases, prop):
                               "expect": {"prop": prop, "c16": False, "policies": policies, "garble": c["target"] + " " + c["kind"]}}],
                     "meta": dict(c, family="garble")})
     return out
+
+def foreign_scenarios(cases, prop):
+    """C02 'for all installed states': the ephemeral instance holds a policy of a shape the agent did not
+    write; whatever the agent does about it, each update applied to that state must satisfy C02."""
+    out = []
+    flt = lambda xs: [f"{p} /{p.split('/')[1]}-/{p.split('/')[1]}" for p in prefixes(xs)]
+    for k, c in enumerate(sorted(cases, key=lambda c: (c["shape"], c["target"]))):
+        sh = c["shape"]; name = "foreign"
+        pol = installed(name, ["a", "b"], ["c"])
+        if sh == "extra-term-other-family":
+            pol["terms"].append({"name": "inet-vpn", "family": "inet-vpn", "accept": True, "filters": []})
+        elif sh == "extra-term-no-from":
+            pol["terms"].append({"name": "rest", "family": None, "accept": True, "filters": []})
+        elif sh == "term-named-differently":
+            pol["terms"][0]["name"] = "v4"
+        elif sh == "term-without-family":
+            pol["terms"][0]["family"] = None
+        elif sh == "two-terms-one-family":
+            pol["terms"].append({"name": "inet-2", "family": "inet", "accept": True, "filters": flt(["d"])})
+        elif sh == "no-trailing-reject":
+            pol["reject"] = False
+        elif sh == "no-trailing-reject-extra-filters":
+            pol["reject"] = False; pol["terms"][0]["filters"] = flt(["a", "b", "d"])
+        elif sh == "term-without-then":
+            pol["terms"][0]["accept"] = False
+        elif sh == "reject-only":
+            pol["terms"] = []
+        irr = Irr(); running = []; policies = {}
+        tgt = {"same": (["a", "b"], ["c"]), "other": (["a"], []), "empty": ([], [])}.get(c["target"])
+        if tgt is not None:
+            expr = irr.asset_with(*tgt)
+            running.append(stmt(name, f"/* bgpfu-fltr: {expr} */"))
+            policies[name] = exp(True, True, "ok", tgt[0], tgt[1], expr, f"foreign {sh}")
+        else:
+            running.append(stmt(name, "/* no longer managed */"))
+            policies[name] = exp(False, False, "none", why="unmarked")
+        cexpr = irr.asset_with(["d"], [])
+        running.append(stmt("control", f"/* bgpfu-fltr: {cexpr} */"))
+        policies["control"] = exp(True, True, "ok", ["d"], [], cexpr, "control")
+        out.append({"case": f"{prop}-x{k}", "instance": "bgpfu", "eph0": [pol],
+                    "runs": [{"running": running, "irr": irr.db, "faults": [], "repeat": False,
+                              "expect": {"prop": prop, "c16": False, "foreign": True, "policies": policies}}],
+                    "meta": dict(c, family="foreign")})
+    return out
